@@ -270,9 +270,18 @@ def selftest(prop):
                 except (KeyError, IndexError, TypeError):
                     return False
         return False
-    pick = next((i for i, tr in enumerate(traces) if composite(tr)), None)
+    # ... and which conforms to the model on its own (some declarations differ from the model off-statement: drift)
+    def drift_of(trs, name):
+        b = chk.drift.get("C17|trace-nonconforming", 0)
+        v, _ = validate_trace(chk, trs, name)
+        return v, chk.drift.get("C17|trace-nonconforming", 0) - b
+    pick = None
+    for i, tr in enumerate(traces):
+        if composite(tr) and drift_of([tr], "st_pick%d" % i) == ("ok", 0):
+            pick = i
+            break
     if pick is None:
-        log("SELFTEST-FAIL C17: no recorded expansion with a composite primary key")
+        log("SELFTEST-FAIL C17: no recorded expansion with a composite primary key that conforms to the model")
         return 2
 
     def corrupt(fn):
@@ -299,10 +308,9 @@ def selftest(prop):
     expect_law("st_suffix", lambda x: x["schemas"].__setitem__("keys", x["schemas"]["keys"][:-1]), "LawNamed")
     expect_law("st_client", lambda x: x["client"]["primaryKey"].reverse(), "LawClient")
     # 2. a difference outside the statement is counted as non-conformance, not rejected
-    before = chk.drift.get("C17|trace-nonconforming", 0)
-    v, _ = validate_trace(chk, corrupt(lambda x: x["publish"].__setitem__("topicName", "zzz")), "st_drift")
-    if v != "ok" or chk.drift.get("C17|trace-nonconforming", 0) != before + 1:
-        log("SELFTEST-FAIL C17: off-statement difference not counted as non-conformance (%s)" % v)
+    v, d = drift_of([corrupt(lambda x: x["publish"].__setitem__("topicName", "zzz"))[pick]], "st_drift")
+    if v != "ok" or d != 1:
+        log("SELFTEST-FAIL C17: off-statement difference not counted as non-conformance (%s, %d)" % (v, d))
         ok = False
     # 3. dropping a recorded clause must not be accepted as the same declaration
     bad = json.loads(json.dumps(traces))
